@@ -94,8 +94,8 @@ impl ReactCache {
 //@before for handle in | let ghost verif_log0 = world.cmd_log(); let ghost verif_list = despawn_reactors@;
 //@loopvar 2 it
 //@loop 2 | invariant it.seq() =~= verif_list, world.cmd_log() == verif_log0 + cmds_for(despawned_entity, verif_list).subrange(0, it.index@ as int),
-//@loopend 1 | assert(cmds_for(despawned_entity, verif_list).subrange(0, verif_list.len() as int) =~= cmds_for(despawned_entity, verif_list));
-//@loopend 1 | assert((verif_log0 + cmds_for(despawned_entity, verif_list)) + all_cmds(self.despawn_receiver.pending(), self.despawn_reactors.view()) =~= verif_log0 + (cmds_for(despawned_entity, verif_list) + all_cmds(self.despawn_receiver.pending(), self.despawn_reactors.view())));
+//@loopafter 2 | assert(cmds_for(despawned_entity, verif_list).subrange(0, verif_list.len() as int) =~= cmds_for(despawned_entity, verif_list));
+//@loopafter 2 | assert((verif_log0 + cmds_for(despawned_entity, verif_list)) + all_cmds(self.despawn_receiver.pending(), self.despawn_reactors.view()) =~= verif_log0 + (cmds_for(despawned_entity, verif_list) + all_cmds(self.despawn_receiver.pending(), self.despawn_reactors.view())));
 }
 
 } // verus!
